@@ -30,11 +30,13 @@ SENS = {  # deviation / plausible bug -> what TLC must report
     "UnmodelledStatusIs502": ("invariant", "Inv_Faithful"), "NoColonPanicResp": ("invariant", "Inv_NoPanic"),
     "ChunkedTruncatedOk": ("invariant", "Inv_Faithful"), "MapErrTo500": ("invariant", "Inv_Faithful"),
     "ForwardUnstripped": ("invariant", "Inv_Forwarded"), "XffProxyAddr": ("invariant", "Inv_Forwarded"),
-    "NoXff": ("invariant", "Inv_Forwarded"), "PerOpTimeout": ("invariant", "Inv_Timely"),
+    "NoXff": ("invariant", "Inv_Forwarded"), "XffDisplaySuffix": ("invariant", "Inv_Forwarded"),
+    "WriteWithoutDeadline": ("temporal", None), "PerOpTimeout": ("invariant", "Inv_Timely"),
     "HeadersDropped": ("invariant", "Inv_Faithful"), "GiveUpOnEmptyRead": ("invariant", "Inv_Faithful"),
     "BodyTruncatedOk": ("invariant", "Inv_Faithful"),
 }
-SENS_QUICK = ["NoReadTimeout", "CloseDelimitedLost", "UnmodelledStatusIs502", "ChunkedTruncatedOk", "MapErrTo500", "ForwardUnstripped"]
+SENS_QUICK = ["NoReadTimeout", "CloseDelimitedLost", "UnmodelledStatusIs502", "ChunkedTruncatedOk", "MapErrTo500", "ForwardUnstripped",
+              "XffDisplaySuffix", "WriteWithoutDeadline"]
 LB_SENS_QUICK = ["NoLock", "SelectOnCloneWriteBack", "WrapLate"]
 LB_SENS = {"NoLock": "Inv_Rotation", "IncrementOutsideLock": "Inv_Rotation", "SelectOnCloneWriteBack": "Inv_Rotation",
            "WrapLate": None, "RandomOffByOne": "Inv_InSet"}
@@ -112,7 +114,7 @@ def _report(ctx, what_prefix, case_id, devs, obj):
 def _validate_trace(ctx, name, records, work):
     """Trace_Proxy.tla over observation records; returns (checked, nontrivial, rejected list)"""
     path = os.path.join(work, name + ".ndjson")
-    keep = ("id", "entry", "req", "route", "connected", "segs", "term", "got", "late", "seenok", "seen")
+    keep = ("id", "entry", "req", "route", "connected", "noread", "segs", "term", "got", "late", "seenok", "seen")
     vlib.write_lines(path, [{k: r[k] for k in keep} for r in records])
     t = _run_tlc("Trace_Proxy.tla", "Trace_Proxy.cfg", D, workers=1, env={"TRACE": path}, timeout=1200, work_id="c09", deque=True)
     ctx.add_tlc("trace validation: %s (%d records)" % (name, len(records)), t)
@@ -181,18 +183,23 @@ def run(tier, replay):
         tlc("mc_six", "MC_Proxy.tla", "MC_Proxy_six.cfg", workers=2, timeout=1200)
     else:
         tlc("mc", "MC_Proxy.tla", "MC_Proxy_quick.cfg", workers=4, coverage=True, timeout=900)
+    tlc("mc_write", "MC_Proxy.tla", "MC_Proxy_write.cfg", workers=2, timeout=900)
     tlc("mc_fwd", "MC_Proxy.tla", "MC_Proxy_fwd.cfg" if thorough else "MC_Proxy_fwd_quick.cfg", workers=2, timeout=900)
     tlc("lb", "LoadBalancer.tla", "MC_LoadBalancer_thorough.cfg" if thorough else "MC_LoadBalancer_quick.cfg", workers=4, coverage=True, timeout=900)
+    # (key, generation config, proxy_request timeout ms, ticks of the model's Timeout [, harness threads])
     gens = [("fast", "Gen_Proxy_fast_thorough.cfg" if thorough else "Gen_Proxy_fast_quick.cfg", 450, 3),
             ("trickle6", "Gen_Proxy_trickle6.cfg", 600, 6),
-            ("fwd", "Gen_Proxy_fwd.cfg" if thorough else "Gen_Proxy_fwd_quick.cfg", 450, 3)]
+            ("fwd", "Gen_Proxy_fwd.cfg" if thorough else "Gen_Proxy_fwd_quick.cfg", 450, 3),
+            # a target that accepts and never reads x request bodies {2 B, 8 MiB, 32 MiB}: write_all blocks; two timeouts
+            ("noread", "Gen_Proxy_noread.cfg", 450, 3, 3), ("noread1500", "Gen_Proxy_noread.cfg", 1500, 3, 3)]
     # the pause/trickle family again with a timeout long enough that "one more whole timeout" (a per-operation
     # timer re-armed by a late partial response) exceeds timeout + slack: seeded change C09-timeout-armed-once
     gens += [("timing_long", "Gen_Proxy_timing.cfg", 2400, 3)]
     if thorough:
         gens += [("timing", "Gen_Proxy_timing.cfg", 450, 3), ("codes", "Gen_Proxy_codes.cfg", 450, 3)]
-    for key, cfg, _, _ in gens:
-        tlc("gen_" + key, "MC_Proxy.tla", cfg, workers=1, timeout=1500, heap="6g")
+    gens = [g if len(g) == 5 else g + (32,) for g in gens]
+    for cfg in sorted(set(g[1] for g in gens)):
+        tlc("gen_" + cfg, "MC_Proxy.tla", cfg, workers=1, timeout=1500, heap="6g")
     for d in (sorted(SENS) if thorough else SENS_QUICK):
         tlc("dev_" + d, "MC_Proxy.tla", "MC_Proxy_dev_%s.cfg" % d, workers=2, timeout=900)
     for d in (sorted(LB_SENS) if thorough else LB_SENS_QUICK):
@@ -215,6 +222,8 @@ def run(tier, replay):
         ctx.require_tlc_ok("MC_Proxy_live", res["mc_live"])
         ctx.add_tlc("Proxy: bodies of up to 6 chunks", res["mc_six"])
         ctx.require_tlc_ok("MC_Proxy_six", res["mc_six"])
+    ctx.add_tlc("Proxy: request write against a target that never reads (padded bodies), safety + liveness", res["mc_write"])
+    ctx.require_tlc_ok("MC_Proxy_write", res["mc_write"])
     ctx.add_tlc("Proxy: Inv_Forwarded over C02-like requests x routes x entries", res["mc_fwd"])
     ctx.require_tlc_ok("MC_Proxy_fwd", res["mc_fwd"])
     r = res["lb"]
@@ -242,23 +251,29 @@ def run(tier, replay):
     observations = []
     next_id = 0
     selftest_vec = None
-    for key, cfg, timeout_ms, ticks in gens:
-        g = res["gen_" + key]
+    counted = set()
+    for key, cfg, timeout_ms, ticks, nthreads in gens:
+        g = res["gen_" + cfg]
         if g.violation:
             raise vlib.ToolError("generation %s failed: %s" % (cfg, g.out[-2000:]))
-        ctx.add_tlc("behaviour generation %s" % cfg, g)
+        if cfg not in counted:
+            counted.add(cfg)
+            ctx.add_tlc("behaviour generation %s" % cfg, g)
         lines = _gen_lines(g, next_id)
         if not lines:
             raise vlib.ToolError("generation %s printed nothing" % cfg)
         next_id += len(lines)
         total = len(lines)
         lines = _thin_handler_timeouts(lines, 64 if thorough else 16)
+        if key.startswith("noread"):
+            # proxy_handler's 5 s: thorough only, and once
+            lines = [x for x in lines if x["entry"] == "core" or (thorough and key == "noread")]
         if not thorough and key in ("timing", "trickle6"):
             # quick: every 3rd timed behaviour (they cost real time), rotated by the seed
             lines = [x for i, x in enumerate(lines) if (i + ctx.seed) % 3 == 0]
         if not thorough and key == "timing_long":
             lines = [x for i, x in enumerate(lines) if (i + ctx.seed) % 6 == 0]
-        p = _run_harness(proxy, ["replay", str(timeout_ms), str(ticks), "32"], stdin_data="\n".join(json.dumps(x) for x in lines) + "\n", timeout=2400)
+        p = _run_harness(proxy, ["replay", str(timeout_ms), str(ticks), str(nthreads)], stdin_data="\n".join(json.dumps(x) for x in lines) + "\n", timeout=2400)
         out = parse_jsonl(p.stdout)
         if p.returncode != 0 or len(out) != len(lines):
             raise vlib.ToolError("proxy replay %s failed rc=%s, %d of %d results: %s" % (cfg, p.returncode, len(out), len(lines), p.stderr[-1500:]))
@@ -271,7 +286,7 @@ def run(tier, replay):
         unconfirmed = 0
         if suspects:
             time.sleep(2)
-            p2 = _run_harness(proxy, ["replay", str(timeout_ms), str(ticks), "4"],
+            p2 = _run_harness(proxy, ["replay", str(timeout_ms), str(ticks), "3"],
                               stdin_data="\n".join(json.dumps(by_id[i]) for i in suspects) + "\n", timeout=2400)
             again = {o["id"]: o for o in parse_jsonl(p2.stdout)}
             if p2.returncode != 0 or len(again) != len(suspects):
@@ -299,7 +314,7 @@ def run(tier, replay):
                 ctx.sample({"entry": gl["entry"], "upstream_events": gl["ev"], "segments": [s["k"] for s in gl["wire"]],
                             "answer": o["trace"]["got"], "forwarded": o["trace"]["seen"]})
         ctx.cov["traces_validated_against_impl"] += len(out)
-        ctx.add_part("behaviours " + cfg, generated=total, replayed=len(out), mismatches=bad,
+        ctx.add_part("behaviours %s (%s, %d ms)" % (cfg, key, timeout_ms), generated=total, replayed=len(out), mismatches=bad,
                      retried=len([o for o in out if o.get("retried")]), mismatches_not_confirmed_on_rerun=unconfirmed)
 
     # self-test of the spec -> code direction: one expected value of a vector flipped must be reported, unattributed
